@@ -190,6 +190,54 @@ func Run(c *core.Ctx) {
 			nrep++
 		}
 	}
+	// single-tag replacement: every candidate pattern, every tag name that occurs after a "$" anywhere in it
+	for _, p := range cand {
+		if !strings.Contains(p, "$") {
+			continue
+		}
+		tags := map[string]bool{"x": true}
+		for i := 0; i < len(p); i++ {
+			if p[i] == '$' {
+				rest := p[i+1:]
+				if j := strings.IndexByte(rest, '.'); j >= 0 {
+					rest = rest[:j]
+				}
+				tags[rest] = true
+				if len(rest) > 1 {
+					tags[rest[1:]] = true
+				}
+			}
+		}
+		for tag := range tags {
+			if tag == "" {
+				continue
+			}
+			for _, val := range []string{"v", "q.r", "$z"} {
+				var got res.Pattern
+				if pv := core.Catch(func() { got = res.Pattern(p).ReplaceTag(tag, val) }); pv != nil {
+					panics++
+					if res.Pattern(p).IsValid() {
+						c.Violate(core.Violation{Signature: map[string]string{"engine": "pattern", "kind": "panic:replace", "p": p}, Text: fmt.Sprintf("panic in ReplaceTag(%q,%q,%q): %v", p, tag, val, pv), Replay: rec{"p": p, "tag": tag}})
+					}
+					continue
+				}
+				recs = append(recs, rec{"op": "replace", "ps": p, "p": core.Chars(p), "m": [][]interface{}{{core.Chars(tag), core.Chars(val)}}, "ms": map[string]string{tag: val}, "got": core.Chars(string(got))})
+				nrep++
+			}
+		}
+	}
+	// the ID transformer over several patterns (tag in the middle, literal tokens containing "$")
+	for _, pat := range []string{"lib.book.$id", "lib.$id.page", "a$id.$id", "lib.b$id", "x.y$id"} {
+		for _, id := range []string{"42", "a", "$q", "id"} {
+			tr := store.IDTransformer("id", nil)
+			var rid string
+			if pv := core.Catch(func() { rid = tr.IDToRID(id, nil, res.Pattern(pat)) }); pv != nil {
+				continue
+			}
+			recs = append(recs, rec{"op": "replace", "ps": pat, "p": core.Chars(pat), "m": [][]interface{}{{core.Chars("id"), core.Chars(id)}}, "ms": map[string]string{"id": id}, "got": core.Chars(rid)})
+			nrep++
+		}
+	}
 	// id -> rid -> id through IDTransformer and real routing
 	ids := core.AllStrings([]string{"a", "$", "-", "b", "{"}, 3)
 	ids = append(ids, "a.b", "*", ">", "a?", "x y", "42", "$id", "$$")
